@@ -41,7 +41,7 @@ m = dict(
                   kind_free_text="Lean 4 theorems over a hand-written model defined on facts regenerated from /repo "
                                  "(tools/extract), tied to the code by a differential run of the real Go code "
                                  "(go test -overlay harness) against the model's executable definitions and the "
-                                 "property's spec predicate (lean/Driver.lean)")],
+                                 "property's spec predicate (lean/SigModel/Driver/, one compiled driver per property)")],
     checks=checks,
     not_applicable=na,
     notes=mm.NOTES,
